@@ -49,6 +49,8 @@ func (o Op) Label() string {
 		return fmt.Sprintf("stream(%s,%s,%s)", o.Sub, o.Tgt, o.Sel)
 	case "streamModack":
 		return fmt.Sprintf("streamModack(%s,%s,%v)", o.Sub, o.Sel, o.D)
+	case "streamWait":
+		return fmt.Sprintf("streamWait(%s)", o.Sub)
 	case "updateTopic":
 		return fmt.Sprintf("%s(%s)", o.K, o.Topic)
 	case "modack":
@@ -279,6 +281,8 @@ func (m *Model) Prepare(op Op, now time.Time) (Call, bool) {
 		return c, true
 	case "updateSub", "modifyPush", "updateTopic", "updateSubDL", "reconfig":
 		return c, true
+	case "streamWait":
+		return c, m.liveSub(op.Sub) != nil
 	case "stream":
 		s := m.liveSub(op.Sub)
 		if s == nil {
